@@ -39,10 +39,24 @@ def rnd_lists(rng, n, steps):
     return [[rng.randrange(1000) for _ in range(8 + 6 * steps)] for _ in range(n)]
 
 
+def corpus_walks(name):
+    out = []
+    d = os.path.join(vlib.VERIF, "corpus", "C02")
+    if os.path.isdir(d):
+        for f in sorted(os.listdir(d)):
+            if f.endswith(".json"):
+                c = json.load(open(os.path.join(d, f)))
+                if c.get("system") == name:
+                    out.append(c)
+    return out
+
+
 def search(ctx, info, sysd, broken, log, n, steps):
-    """differential execution of the two regenerated models on random walks; a distinguishing
-    (state, choices) of a label is reported as a failure with the walk as replay"""
-    mm, cover, err = G.run_walks(info, rnd_lists(ctx.rng, n, steps), steps, log)
+    """differential execution of the two regenerated models on the corpus walks and on random walks; a
+    distinguishing (state, choices) of a label is reported as a failure with the walk as replay"""
+    cw = corpus_walks(sysd["name"])
+    rnds = [c["rnd"][:8 + 6 * steps] + [0] * max(0, 8 + 6 * steps - len(c["rnd"])) for c in cw] + rnd_lists(ctx.rng, n, steps)
+    mm, cover, err = G.run_walks(info, rnds, steps, log)
     if err:
         ctx.notes.append("differential walk of %s: %s" % (sysd["name"], err[:300]))
     seen = set()
@@ -109,11 +123,16 @@ def run(ctx):
             for m in mm:
                 ctx.failures.append({"signature": "step-differs:%s.%s.%s" % (sysd["name"], m.get("process"), m.get("label")),
                                      "what": "replayed walk still distinguishes the two models", "case": case, "obs": m.get("go"), "exp": m.get("tla")})
-        elif walkable and (broken or st["differential_only"] or ctx.tier == "thorough"):
+        elif walkable and (broken or st["differential_only"] or corpus_walks(sysd["name"]) or ctx.tier == "thorough"):
             n, steps = (40, 120) if ctx.tier == "quick" else (400, 300)
             cover, err = search(ctx, info, sysd, broken, log, n, steps)
             st["differential_walk"] = {"walks": n, "max_steps": steps, "committed_steps_per_label": cover, "error": err}
         per_system[sysd["name"]] = st
+    ctx.extra["excluded_pairs"] = [{"pair": e["go"], "reason": e["reason"]} for e in G.EXCLUDED]
+    if ctx.tier == "thorough" and not ctx.replay:
+        for e in G.EXCLUDED:
+            if not G.check_excluded(e):
+                ctx.breaks.append({"what": "C02: the excluded pair %s has become translatable; it must be added to the checked systems" % e["name"]})
     if not ctx.replay:
         for b in sorted(base - seen):
             ctx.breaks.append({"what": "baseline label %s no longer exists in the regenerated models" % b})
